@@ -212,9 +212,9 @@ class Run:
     def _run_proc(self, argv, cmds, timeout):
         """Run a line-protocol child on cmds; returns (outs, status) where outs may be shorter than cmds."""
         cmds = [strip_expect(c) for c in cmds]
-        # the implementation side runs under an address-space limit (default 8 GiB): a guest request for tens of gigabytes (a brk
+        # the implementation side runs under an address-space limit (default 2 GiB): a guest request for gigabytes (a brk
         # far above the heap) then fails in the allocator with an error instead of being satisfied lazily and dragging the host down
-        limit = self.cfg.get("rlimit_as", 8 * 1024 ** 3) if argv and argv[0] == self.axh else None
+        limit = self.cfg.get("rlimit_as", 2 * 1024 ** 3) if argv and argv[0] == self.axh else None
 
         def pre():
             import resource
